@@ -20,7 +20,8 @@ adapter needs (`Write`, `Result`, `IoSlice`, `IoSliceMut`, `ErrorKind`).  Everyt
 `fs`, `vec`, `string`, `collections`, `boxed`, `rc`, `sync`, `thread`, `io::Error::new/other`, `io::BufWriter`,
 … — may allocate and is rejected. -/
 def coreMirrors : List String :=
-  ["fmt", "hash", "mem", "ops", "cmp", "convert", "arch", "marker", "default", "clone", "num", "option", "result",
+  ["fmt", "hash", "mem", "ops", "cmp", "convert", "arch", "marker", "default", "clone", "num", "option", "result", "error", "iter",
+   "slice", "str", "borrow", "any", "cell", "ptr", "time", "prelude", "primitive", "simd", "task", "future", "pin", "panic",
    "hint", "array", "ascii", "char", "u8", "u16", "u32", "u64", "u128", "usize", "i8", "i16", "i32", "i64", "i128", "isize",
    "is_x86_feature_detected", "debug_assert", "assert", "write", "writeln", "cfg", "compile_error", "concat", "stringify"]
 def ioItems : List String := ["Write", "Result", "IoSlice", "IoSliceMut", "ErrorKind"]
@@ -33,7 +34,7 @@ theorem std_paths : (facts.all fun f => !(f.kind == "std_path" && !f.test) || st
   decide +kernel
 
 example : stdPathOk "::std::io::Write" = true ∧ stdPathOk "::std::fmt::Arguments" = true ∧ stdPathOk "::std::io::IoSlice" = true ∧
-    stdPathOk "std::env::var" = false ∧ stdPathOk "::std::io::Error::other" = false ∧ stdPathOk "std::vec::Vec" = false := by decide +kernel
+    stdPathOk "std::env::var" = false ∧ stdPathOk "::std::io::Error::other" = false ∧ stdPathOk "std::vec::Vec" = false ∧ stdPathOk "std::error::Error" = true := by decide +kernel
 
 end HH.C18
 
